@@ -153,23 +153,25 @@ var theWorld *World
 var hookOnce sync.Once
 
 type World struct {
-	t        *testing.T
-	plan     *Plan
-	st       *core.Stream
-	sched    *core.Sched
-	clock    *core.Clock
-	srv      *fakepg.Server
-	srcs     map[string]*srcState
-	pairs    []*pairState
-	conf     config.Root
-	gen      int
-	step     int
-	healed   bool
-	dead     atomic.Bool // teardown: transport fails instantly
-	free     bool        // free-running mode: nothing parks, hooks off (C18)
-	noActors bool
-	ending   atomic.Bool // the run is over: runners are being stopped
-	setup    bool        // setup phase: PG gate auto-executes
+	t           *testing.T
+	plan        *Plan
+	st          *core.Stream
+	sched       *core.Sched
+	clock       *core.Clock
+	srv         *fakepg.Server
+	srcs        map[string]*srcState
+	pairs       []*pairState
+	conf        config.Root
+	gen         int
+	step        int
+	healed      bool
+	dead        atomic.Bool // teardown: transport fails instantly
+	free        bool        // free-running mode: nothing parks, hooks off (C18)
+	noActors    bool
+	ending      atomic.Bool // the run is over: runners are being stopped
+	freeRunners atomic.Int64
+	freeID      int64 // != 0: runs outside a bubble; its hosts carry the id
+	setup       bool  // setup phase: PG gate auto-executes
 
 	mu         sync.Mutex
 	commits    []*fakepg.CommitInfo
@@ -272,6 +274,18 @@ func (simTransport) RoundTrip(req *http.Request) (*http.Response, error) {
 	if w == nil {
 		return nil, errors.New("no simulation world")
 	}
+	if i := strings.Index(req.URL.Hostname(), ".free"); i >= 0 {
+		// a world that runs outside a bubble (free-running manager runs): its
+		// requests are recognised by the host name, so that a straggler of a
+		// finished run can never touch the world of a later run
+		var id int64
+		fmt.Sscanf(req.URL.Hostname()[i+5:], "%d", &id)
+		fw := curFreeWorld.Load()
+		if fw == nil || fw.freeID != id || fw.dead.Load() {
+			return nil, fmt.Errorf("dial tcp %s: connection refused (world gone)", req.URL.Hostname())
+		}
+		return fw.freeRoundTrip(req, body)
+	}
 	if w.free {
 		return w.freeRoundTrip(req, body)
 	}
@@ -314,8 +328,16 @@ func hostFor(src string, gen, replica int) string {
 	return fmt.Sprintf("%s-g%d-r%d.sim", src, gen, replica)
 }
 
+var (
+	curFreeWorld atomic.Pointer[World]
+	freeWorldSeq atomic.Int64
+)
+
 func parseHost(host string) (src string, gen, replica int, ok bool) {
 	h := strings.TrimSuffix(host, ".sim")
+	if k := strings.Index(h, ".free"); k >= 0 {
+		h = h[:k]
+	}
 	i := strings.LastIndex(h, "-r")
 	j := strings.LastIndex(h, "-g")
 	if i < 0 || j < 0 || j > i {
@@ -437,7 +459,18 @@ func installHooks() {
 		}
 		verifhook.OnEvent = func(name string, kv ...any) {
 			w := theWorld
-			if w == nil || w.free {
+			if w == nil {
+				return
+			}
+			if w.free {
+				// free-running worlds only count their live runners (to know
+				// when a stopped manager has really stopped)
+				switch name {
+				case "runTask.start":
+					w.freeRunners.Add(1)
+				case "runTask.stop":
+					w.freeRunners.Add(-1)
+				}
 				return
 			}
 			switch name {
@@ -480,7 +513,11 @@ func (w *World) urlsFor(src string) []string {
 		n = 1
 	}
 	for i := 0; i < n; i++ {
-		out = append(out, "http://"+hostFor(src, w.gen, i))
+		h := hostFor(src, w.gen, i)
+		if w.freeID != 0 {
+			h = strings.TrimSuffix(h, ".sim") + fmt.Sprintf(".free%d.sim", w.freeID)
+		}
+		out = append(out, "http://"+h)
 	}
 	return out
 }
